@@ -279,8 +279,15 @@ def run_api(world, spec):
             for h in live:  # so that the next request's check is about the next request
                 h._abandoned = True
         for h in world.helpers[h0:]:
-            if h.orphan_alive():  # not judged (it is the user's process, not the helper); counted
+            if h.orphan_alive():  # in general not judged (it is the user's process, not the helper); counted
                 world.probe("descendant-left-running")
+                if h._group_signalled and not h._orphan_escaped and not stop:
+                    # ... but a caller that signals the helper's process group has taken charge of the descendants, and
+                    # one of them (still a member of that group) survived what it sent
+                    checks.append({"class": "leaked-helper",
+                                   "message": "a process started by helper #%d of request %d, member of the helper's process "
+                                              "group, is still running after compile_code signalled that group and returned"
+                                              % (h._idx, h._req)})
         if vt > LATE_BASE_S + LATE_PER_HELPER_S * max(nh, 1):
             checks.append({"class": "late",
                            "message": "compile_code took %.1f virtual seconds with %d helper invocations" % (vt, nh)})
